@@ -161,7 +161,16 @@ type job struct {
 var cacheDir = ""
 
 func cacheKey(smt string) string {
-	h := sha256.Sum256([]byte(smt))
+	// comment lines (obligation name, source position) are not part of the query
+	var b strings.Builder
+	for _, l := range strings.Split(smt, "\n") {
+		if strings.HasPrefix(l, ";") {
+			continue
+		}
+		b.WriteString(l)
+		b.WriteByte('\n')
+	}
+	h := sha256.Sum256([]byte(b.String()))
 	return hex.EncodeToString(h[:])
 }
 
@@ -339,7 +348,7 @@ func solveAll1(jobs []*job, timeoutS int, cross bool, workers int) {
 			undecided = append(undecided, j)
 		}
 	}
-	if len(undecided) > 0 && len(undecided) <= 8 {
+	if len(undecided) > 0 && len(undecided) <= 8 && os.Getenv("GOVC_NO_RETRY") == "" {
 		for _, j := range undecided {
 			r := raceSolvers(j.path, timeoutS*2)
 			if r.Status == "unsat" {
